@@ -237,6 +237,20 @@ func (w *c16World) check(where string) {
 				c.Fatalf("%s: two live links to the same peer %s (only one can be found by the peer address)", ctx, l.Peer())
 			}
 		}
+		// No lookup may hand out a link that is closing or closed.
+		for _, cc := range w.conns {
+			for side, e := range []*wire.End{cc.conn.A, cc.conn.B} {
+				if [2]int{cc.a, cc.b}[side] != i || e.Link == nil {
+					continue
+				}
+				if !(cc.closed[side] || e.Link.IsClosing()) || e.Link.SwitchLabel() == 0 {
+					continue
+				}
+				if got := n.Peer.GetLinkByLabel(e.Link.SwitchLabel()); got != nil && got.IsClosing() {
+					c.Fatalf("%s: the lookup by switch label %d returns a closing link to %s", ctx, e.Link.SwitchLabel(), got.Peer())
+				}
+			}
+		}
 		if len(reg) != len(L) {
 			c.Fatalf("%s: registry holds %d links, %d are established and not closing", ctx, len(reg), len(L))
 		}
@@ -333,6 +347,14 @@ func TestC16(t *testing.T) {
 				used[id.Index] = true
 				chosen = append(chosen, id)
 			}
+		}
+		// One plain case in five: the last router has a privacy address. The
+		// others keep no routes for it, so registering a link to it fails after
+		// the handshake succeeded; both ends must be clean afterwards.
+		if !privacyCluster && c.Chance("stranger.privacy", 1, 5) {
+			pl := ids.Group("privacy16")
+			chosen[n-1] = pl[c.Pick("stranger.id", len(pl))]
+			c.Class("router-with-an-unroutable-privacy-address")
 		}
 		// With a label collision the two colliding routers are both peers of node 0:
 		// put them at positions 1 and 2 (or 0 and 1 for n == 2... then they peer with each other).
@@ -447,8 +469,15 @@ func TestC16(t *testing.T) {
 					e = cc.conn.Other(e)
 					side = 1 - side
 				}
-				w.log("local close of link n%d->n%d at side %d", cc.a, cc.b, side)
-				e.Link.Close(nil)
+				if c.Bool("close.by-manager") {
+					// ... by peer address through the peering manager (the dashboard's "close").
+					w.log("local close of link n%d->n%d at side %d through the manager", cc.a, cc.b, side)
+					w.nodes[[2]int{cc.a, cc.b}[side]].Peer.CloseLink(e.Link.Peer())
+					c.Class("close-through-the-manager")
+				} else {
+					w.log("local close of link n%d->n%d at side %d", cc.a, cc.b, side)
+					e.Link.Close(nil)
+				}
 				w.waitClosed(e)
 				cc.closed[side] = true
 				w.closeEnds(cc, side == 1, side == 0) // EOF to the other side
